@@ -44,7 +44,7 @@ def model_pass(ctx, prop):
     if prop == "C06":
         # the heartbeat as one more requester / closer, and TimeoutLimit (a caller that times out past the
         # limit closes the connection itself)
-        for cfg in (("MC_Conn_hbq.cfg", "MC_Conn_tlimitq.cfg") if quick else ("MC_Conn_hb.cfg", "MC_Conn_tlimit.cfg", "MC_Conn_hb3.cfg")):
+        for cfg in (("MC_Conn_hbq.cfg", "MC_Conn_tlimitq.cfg") if quick else ("MC_Conn_hbq.cfg", "MC_Conn_tlimit.cfg", "MC_Conn_hb3.cfg")):
             r4 = vf.tlc_must_pass(ctx, "MC_Conn", cfg, timeout=2400, heap="10g")
             res.append((cfg[:-4], r4))
     return res
